@@ -1,8 +1,9 @@
 \* emission (quick): one printed run per terminal state (completed, or aborted at one failure point)
 CONSTANTS MaxCyc = 2  MaxBurn = 1  Tights = {FALSE, TRUE}  WithStarts = FALSE  MaxLevel = 400
+CONSTANTS RestartFrom = {"completed", "aborted"}  Phase2Fails = FALSE
 CONSTANT Configs <- NoConfigs
 INIT RInit
-NEXT RNext
+NEXT RNextR
 CONSTRAINT Bound
 INVARIANT EmitRun
 INVARIANT RTypeOK
@@ -12,4 +13,7 @@ INVARIANT CompletedRunIsSuccessful
 INVARIANT FinalisedFileIsComplete
 INVARIANT SnapshotsHoldStateAtWrite
 INVARIANT MarkAndPlace
+INVARIANT RestartHoldsWholeHistory
+INVARIANT MergedUnchanged
+INVARIANT RestartIsInit
 CHECK_DEADLOCK FALSE
